@@ -7,7 +7,7 @@ Oracle: the declarative schema + generic acceptor of vlib/schema.py (accept <=> 
 KSI_Signature_parseWithPolicy(EMPTY), KSI_AggregationPdu_parse / KSI_ExtendPdu_parse (PDU version option 1 and 2) and
 KSI_PublicationsFile_parse. Cases the property text does not decide are executed (sanitizers watch) but not judged.
 """
-import os, random, hashlib
+import zlib, os, random, hashlib
 from vlib import core, kexec, pool, pki, refksi as R, gen, refserver as S, schema as K
 from vlib.refksi import T, uint
 from checks import c18
@@ -143,6 +143,11 @@ class Lib:
         for v in (1, 2):
             c('opt %d aggr_pdu_ver %d' % (v, v))
             c('opt %d ext_pdu_ver %d' % (v, v))
+        # contexts whose two services speak different PDU versions: 3 = aggregator v1 / extender v2, 4 = aggregator v2 / extender v1
+        for i, (a, e) in ((3, (1, 2)), (4, (2, 1))):
+            c('ctx %d' % i)
+            c('opt %d aggr_pdu_ver %d' % (i, a))
+            c('opt %d ext_pdu_ver %d' % (i, e))
 
     def command(self, kind, version, raw, verify=False):
         hx = raw.hex() if raw else '-'
@@ -150,7 +155,11 @@ class Lib:
             return 'sigx 0 0 %s%s' % (hx, ' v=1' if verify else '')
         if kind == 'pubfile':
             return 'pubx 0 %s' % hx
-        return 'pduparse %d %s %s' % (version, kind, hx)
+        cx = version
+        if raw and zlib.crc32(raw) & 1:
+            # the same parse on the context in which only THIS service uses that version
+            cx = {('aggr', 1): 3, ('aggr', 2): 4, ('ext', 1): 4, ('ext', 2): 3}[(kind, version)]
+        return 'pduparse %d %s %s' % (cx, kind, hx)
 
     def run(self, kind, version, raw, verify=False):
         return self.ex.cmd(self.command(kind, version, raw, verify))
